@@ -6,7 +6,7 @@ import subprocess
 import time
 from concurrent.futures import ThreadPoolExecutor
 
-from common import NCPU, PY, SPECS, VERIF, MachineryError, pyenv, run_tlc
+from common import NCPU, PY, SPECS, VERIF, MachineryError, limit_resources, pyenv, run_tlc
 
 REALIZE = os.path.join(VERIF, "harness", "realize.py")
 
@@ -16,7 +16,7 @@ def _run_chunk(build_dir, jobs, timeout, extra_env=None):
     limit = 120 + len(jobs) * 0.5
     try:
         r = subprocess.run([PY, "-W", "ignore", REALIZE], input=req, capture_output=True, text=True,
-                           env=pyenv(build_dir, extra_env), timeout=limit)
+                           env=pyenv(build_dir, extra_env), timeout=limit, preexec_fn=limit_resources())
     except subprocess.TimeoutExpired:
         # a hang the in-process alarm could not interrupt (C-level loop): re-run job by job to find it
         if len(jobs) == 1:
